@@ -44,7 +44,7 @@ pub fn run_case<G: AffineRepr>(run: u64, case: &Case, st: &mut Stats) {
     st.steps += pr.steps + 1;
     // adversarial prover with knowledge of every weight derivable too early
     if case.wfault.is_none() {
-        for (pos, fb) in adaptive_forgeries::<G>(&sc.st, &pr.commitments, &pr.bytes).into_iter().take(6) {
+        for (pos, fb) in { let all = adaptive_forgeries::<G>(&sc.st, &pr.commitments, &pr.bytes); let n = all.len(); all.into_iter().enumerate().filter(move |(i, (p, _))| *p > 1000 && (*i + (run as usize)) % 3 == 0 || *i + 10 >= n).map(|(_, x)| x) } {
             st.eval();
             st.fault("F4-adaptive-weighted-blinding-shift");
             let real = deliver::<G>(&sc.st, &pr.commitments, &fb, &case.base.cap_v);
